@@ -5,6 +5,7 @@ package main
 // PC-REG.
 
 import (
+	"os"
 	"fmt"
 	"go/token"
 	"go/types"
@@ -445,7 +446,7 @@ func ruleBTWidth(c *Ctx, full bool) {
 			if tp != "" {
 				k = p.State.kindsOf(tp) & b.EntryK
 			} else {
-				k = 0
+				k = b.EntryK // no type parameter: built for whatever its callers are building for
 			}
 			rows[name] |= k
 			rowPaths[name] = append(rowPaths[name], p)
@@ -473,6 +474,9 @@ func ruleBTWidth(c *Ctx, full bool) {
 			}
 			contract := e.typedContract(ct)
 			K := rows[name] &^ (1 << nilKind)
+			if os.Getenv("DBG_BTW") != "" {
+				fmt.Fprintln(os.Stderr, "BTW", fnKey(b.Fn), name, rows[name].String(), contract.String())
+			}
 			switch contract.Kind {
 			case CNone:
 				c.Rule("BT-WIDTH", "", 0)
